@@ -398,6 +398,32 @@ theorem poll_closes_expired (s : St) (w : Window) (h : (step s .poll).1.window =
   obtain ⟨_, h2⟩ := checkWindowTimeout_open h
   simpa using h2
 
+/-- what the property demands of every PASE session that exists -/
+def SessOK (x : Sess) : Prop := x.windowOpenAtCreation = true ∧ x.sameWindowAtCreation = true
+
+theorem step_sessOK (s : St) (op : Op) (h : ∀ x ∈ s.sessions, SessOK x) :
+    ∀ x ∈ (step s op).1.sessions, SessOK x := by
+  intro x hx
+  by_cases hold : x ∈ s.sessions
+  · exact h x hold
+  · obtain ⟨h1, h2, _⟩ := session_only_in_open_window s op x hx hold
+    exact ⟨h1, h2⟩
+
+/-- **For every history**: each PASE session that exists was created while the commissioning
+window of its own proof was open and unexpired. -/
+theorem every_session_in_open_window (ops : List Op) :
+    ∀ x ∈ (run {} ops).sessions, SessOK x := by
+  suffices h : ∀ (s : St), (∀ x ∈ s.sessions, SessOK x) → ∀ x ∈ (run s ops).sessions, SessOK x from
+    h {} (fun _ hx => by cases hx)
+  induction ops with
+  | nil => intro s h; exact h
+  | cons o os ih => intro s h; exact ih _ (step_sessOK s o h)
+
+/-- sessions are never removed or altered by the responder: the list only grows -/
+theorem sessions_prefix (s : St) (op : Op) : ∃ l, (step s op).1.sessions = s.sessions ++ l := by
+  rcases session_implies_proof s op with h | ⟨_, _, _, _, _, _, _, _, _, _, _, _, h⟩
+  · exact ⟨[], by simp [h]⟩
+  · exact ⟨_, h⟩
 /-- the threshold of the code is the property's *twenty* (breaks if the constant is changed) -/
 theorem threshold_is_twenty : maxFailures = 20 := by decide
 
